@@ -481,7 +481,7 @@ def clause8_key_copy(ctx, P):
 
 def clause9_no_embedded_nul(ctx, P):
     """paths (and every other string) are C strings inside the daemon: hash, strcmp and duplicate_string stop at the first 0 byte.  So
-    the string decoder of the bundled cJSON must never store a 0 byte inside a string - the only way in is the escape \\u0000, which
+    the string decoder of the bundled cJSON must never store a 0 byte inside a string - one way in is the escape \\u0000, which
     utf16_literal_to_utf8() therefore refuses on every path that reports success (otherwise "x", "x\\u0000one" and "x\\u0000two" name
     one element: a free path is refused as existing, requests on unknown paths succeed)"""
     f = P.fn("cJSON.c:utf16_literal_to_utf8")
@@ -501,9 +501,96 @@ def clause9_no_embedded_nul(ctx, P):
            "utf16_literal_to_utf8() accepts the code point 0 (\\u0000) and stores a 0 byte in the middle of the decoded string: the rest of "
            "a path is invisible to the element table, so different paths name one element", witness=bad.witness() if bad else None)
 
+    # ... the other way in: messages are length-delimited, so a RAW 0 byte can stand between the quotes.  On every successful path of
+    # No input byte is copied as it is without a test against 0 (in the copy loop or in the scan over the same bytes before it).
+    ps = P.fn("cJSON.c:parse_string")
+
+    def nonzero_test(a, p):
+        return a[0] == "cmp" and a[3] == ("const", 0) and a[2][0] == "load" and Q.mentions(a[2][1], lambda x: x[0] == "phi") and \
+            ((a[1] == "ne" and p) or (a[1] == "eq" and not p) or (a[1] in ("ugt", "sgt") and p))
+    plain = [i for i in ps.all_insts() if i.op == "store" and P.term(ps, i.a[0])[0] == "load" and
+             Q.mentions(P.term(ps, i.a[0])[1], lambda x: x[0] == "phi")]
+    nr = len(plain)
+    # either every plain copy is itself behind a test of a byte against 0, or the scan that runs over the same bytes before
+    # (a loop without such a copy, whose exit test looks at the byte under a cursor) cannot go round without one
+    in_copy = bool(plain) and all(Q.must_pass(P, ps, i.block, nonzero_test) for i in plain)
+    scans = []
+    for h, body in ps.loops().items():
+        if any(i.block in body for i in plain):
+            continue
+        looks = any(a is not None and a[0] == "cmp" and a[2][0] == "load" and Q.mentions(a[2][1], lambda x: x[0] == "phi")
+                    for b in body for (sv, a, pl) in P.edge_conds(ps, b))
+        if looks:
+            scans.append((h, body))
+    in_scan = bool(scans) and all(Q.must_pass(P, ps, b, nonzero_test) for (h, body) in scans for b in body
+                                  if h in ps.succs[b] and b != h)
+    badr = None if (in_copy or in_scan) else True
+    ctx.ob("C04.1 R-GATE", ps, "no-raw-zero-byte-inside-a-string", badr is None and nr > 0,
+           "parse_string() copies input bytes into the decoded string on a path that never tests a byte against 0: a raw 0 byte inside "
+           "a length-delimited message ends the C string early, the rest of a path is invisible to the element table "
+           "(\"x<NUL>one\" is refused as existing, remove \"x<NUL>two\" deletes x)")
+
+
+UTF8_THRESHOLDS = {0x80: "1/2 bytes", 0x800: "2/3 bytes", 0x10000: "3/4 bytes", 0x110000: "end of Unicode",
+                   0xD800: "first high surrogate", 0xDC00: "first low surrogate", 0xE000: "behind the surrogates"}
+
+
+def clause9b_utf8_boundaries(ctx, P):
+    """escaped characters are re-encoded as UTF-8 by the bundled utf16_literal_to_utf8(): every comparison of a code unit / code point
+    with a constant in that function, normalised to 'the first value on the other side' (x < c and x >= c: c; x <= c and x > c: c + 1),
+    names one of the boundaries of UTF-8 / UTF-16 (RFC 3629, RFC 2781) - and each length boundary occurs.  A boundary that is off by
+    one (U+0800 as two bytes, E0 80) makes ids, paths and values written with an escape differ from the same text written raw"""
+    f = P.fn("cJSON.c:utf16_literal_to_utf8")
+    seen = {}
+    bad = None
+    for b in range(f.nblocks):
+        for (sv, atom, pol) in P.edge_conds(f, b):
+            if atom is None or atom[0] != "cmp" or atom[3][0] != "const" or atom[1] not in ("ult", "ule", "ugt", "uge", "slt", "sle", "sgt", "sge"):
+                continue
+            c = atom[3][1]
+            if c < 0x7F:
+                continue
+            th = c if atom[1][1:] in ("lt", "ge") else c + 1
+            seen[th] = atom
+            if th not in UTF8_THRESHOLDS and bad is None:
+                bad = (atom, th)
+    missing = [hex(t) for t in (0x80, 0x800, 0x10000) if t not in seen]
+    ctx.ob("C04.1 R-TABLE", f, "utf8-length-boundaries", bad is None and not missing,
+           ("utf16_literal_to_utf8() separates code points at %s (%s), which is no boundary of UTF-8/UTF-16: the character at the boundary "
+            "is encoded with the wrong length, so the same id or path written with an escape and written raw are different strings" %
+            (hex(bad[1]), fmt_atom(bad[0], True))) if bad else
+           ("length boundaries not found: %s" % missing if missing else "boundaries: %s" % sorted(hex(t) for t in seen)))
+
+
+def clause9c_hex_digits(ctx, P):
+    """the four hex digits of an escape are read by parse_hex4(): evaluated as a table (finite evaluation of the function's IR on the
+    inputs "000c" for all 256 bytes c, and on one four-digit number) it gives the digit value for 0-9, A-F, a-f and 0 otherwise"""
+    from ..core.feval import FEval
+    f = P.fn("cJSON.c:parse_hex4")
+    ev = FEval(P, f, None, ptr_param=None)
+    bad = []
+    try:
+        for c in range(256):
+            r, _ = ev.run({}, {}, arrays={0: bytes([0x30, 0x30, 0x30, c])})
+            ch = chr(c)
+            want = int(ch, 16) if ch in "0123456789abcdefABCDEF" else 0
+            if (r & 0xFFFFFFFF) != want:
+                bad.append("%r -> %d" % (ch, r & 0xFFFFFFFF))
+        r, _ = ev.run({}, {}, arrays={0: b"bEeF"})
+        if (r & 0xFFFFFFFF) != 0xBEEF:
+            bad.append("'bEeF' -> %#x" % (r & 0xFFFFFFFF))
+    except AnalysisBroken as e:
+        ctx.broken("parse_hex4 cannot be evaluated as a table: %s" % e)
+        return
+    ctx.ob("C04.1 R-TABLE", f, "hex-digit-table", not bad,
+           "parse_hex4() gives a wrong value for %s: a path (id, value) written with the escape \\uXXXX decodes to a different character "
+           "than the same text written raw - one path becomes two, or a free path is taken for another one" % ", ".join(bad[:6]))
+
 
 def run(ctx):
     for cfg in ctx.configs():
+        clause9b_utf8_boundaries(ctx, cfg.P)
+        clause9c_hex_digits(ctx, cfg.P)
         clause6_wrappers(ctx, cfg.P)
         clause7_kind(ctx, cfg.P)
         clause1_unique(ctx, cfg.P)
